@@ -33,6 +33,36 @@ pub struct AmountCase {
     /// reservation that completed
     #[serde(default)]
     pub retried_reservation: bool,
+    /// earlier, completed use of the same client object: a card was read (its status information may carry the optional
+    /// "maximum pre-authorisation" field 1f0b and an application list), and/or a whole earlier begin + commit with this final amount
+    #[serde(default)]
+    pub prior_card: Option<PriorCard>,
+    #[serde(default)]
+    pub prior_txn: Option<u64>,
+}
+#[derive(Serialize, Deserialize, Clone, Debug, PartialEq)]
+pub struct PriorCard {
+    pub limit: Option<u64>,
+    pub payment: bool,
+    pub extra: bool,
+}
+fn prior_card_reply(t: &Table, p: &PriorCard) -> String {
+    let mut f = vec![("uuid", opt_s(Some("04a1b2c3d4e5f6"))), ("maximum_pre_autorisation", opt_u(p.limit))];
+    if p.payment {
+        let sub = make(t, "tlv.Subs", &[("card_type", opt_s(Some("02"))), ("application_id", opt_s(Some("a0000000041010")))]);
+        f.push(("subs", Val::List(vec![sub])));
+    }
+    if p.extra {
+        f.push(("ats", opt_s(Some("0578807002"))));
+        f.push(("sak", opt_u(Some(0x20))));
+    }
+    let tlv = make(t, "tlv.StatusInformation", &f);
+    let mut set = vec![("result_code", opt_u(Some(0))), ("tlv", Val::Some(Box::new(tlv)))];
+    if p.extra {
+        set.push(("amount", opt_u(p.limit.map(|l| l % 1_000_000_000_000))));
+    }
+    let si = make(t, "StatusInformation", &set);
+    hex(&enc(t, "StatusInformation", &si))
 }
 
 fn bmp60(t: &Table, token: &str) -> Val {
@@ -48,6 +78,16 @@ pub fn check_amounts(c: &AmountCase) -> CheckResult {
     let receipt2 = c.receipt % 9999 + 1;
     let live_receipt = if c.retried_reservation { receipt2 } else { c.receipt };
     sc.sim.receipts = vec![c.receipt, receipt2];
+    let receipt0 = (c.receipt + 4999) % 9999 + 1;
+    if let Some(p) = &c.prior_card {
+        sc.sim.card_replies = vec![prior_card_reply(&t, p)];
+        sc.setup.push(Op::ReadCard);
+    }
+    if let Some(a) = c.prior_txn {
+        sc.sim.receipts.insert(0, receipt0);
+        sc.setup.push(Op::Begin("earlier".into()));
+        sc.setup.push(Op::Commit("earlier".into(), a));
+    }
     if c.retried_reservation {
         // reply script of a reservation: ack, intermediates.., status information, completion
         let pos = 1 + c.intermediates + 1;
@@ -66,6 +106,9 @@ pub fn check_amounts(c: &AmountCase) -> CheckResult {
     let tr = guard(|| run_scenario(&sc)).map_err(|p| Violation::new("amounts", "C08 kind=harness-panic".to_string(), p, input.clone()))?;
     if !tr.new_returned || tr.calls.len() != 2 {
         return Ok(());
+    }
+    if tr.setup.iter().any(|s| !matches!(s.result, Some(Ok(_)))) {
+        return v("earlier-call-failed", format!("the earlier calls {:?} returned {:?}", sc.setup, tr.setup.iter().map(|s| s.result.clone()).collect::<Vec<_>>()));
     }
     for (k, call) in tr.calls.iter().enumerate() {
         if let Some(p) = &call.panicked {
@@ -110,8 +153,13 @@ pub fn check_amounts(c: &AmountCase) -> CheckResult {
     // the terminal's ledger: booked = min(a, P)
     let booked = tr.world.sim.lock().unwrap().booked.clone();
     let want_booked = c.final_amount.min(c.pre_auth);
-    if booked != vec![(live_receipt, want_booked)] {
-        return v("ledger", format!("terminal booked {:?}; expected receipt {} with {}", booked, live_receipt, want_booked));
+    let mut want_ledger = vec![];
+    if let Some(a) = c.prior_txn {
+        want_ledger.push((receipt0, a.min(c.pre_auth)));
+    }
+    want_ledger.push((live_receipt, want_booked));
+    if booked != want_ledger {
+        return v("ledger", format!("terminal booked {:?}; expected {:?}", booked, want_ledger));
     }
     // 3. the summary reproduces the last status information
     let last = c.status.last().unwrap();
@@ -173,8 +221,28 @@ pub fn case_strategy() -> impl Strategy<Value = AmountCase> {
         prop::bool::weighted(0.15),
         0usize..3,
         prop::bool::weighted(0.1),
+        (prop::bool::weighted(0.25), any::<u8>(), any::<u64>(), prop::bool::weighted(0.12), any::<bool>(), any::<bool>()),
     )
-        .prop_map(|(pre_auth, (sel, rnd), currency, password, token, receipt, status, cancel, intermediates, retried_reservation)| {
+        .prop_map(|(pre_auth, (sel, rnd), currency, password, token, receipt, status, cancel, intermediates, retried_reservation, (card, lsel, lrnd, txn, payment, extra))| {
+            let prior_card = card.then(|| PriorCard {
+                limit: match lsel % 8 {
+                    0 => None,
+                    1 => Some(0),
+                    2 => Some(pre_auth.saturating_sub(1)),
+                    3 => Some(pre_auth / 2),
+                    4 => Some(pre_auth),
+                    5 => Some(pre_auth + 1),
+                    6 => Some(lrnd % (pre_auth + 1)),
+                    _ => Some(lrnd % 1_000_000_000_000),
+                },
+                payment,
+                extra,
+            });
+            let prior_txn = txn.then(|| match lsel % 3 {
+                0 => lrnd % (pre_auth + 1),
+                1 => pre_auth.saturating_add(lrnd % 7),
+                _ => lrnd,
+            });
             let final_amount = match sel % 12 {
                 0 => 0,
                 1 => pre_auth.saturating_sub(1),
@@ -189,7 +257,7 @@ pub fn case_strategy() -> impl Strategy<Value = AmountCase> {
                 10 => pre_auth.saturating_add(rnd % 1000),
                 _ => rnd,
             };
-            AmountCase { pre_auth, final_amount, currency, password, token, receipt, status, cancel, intermediates, retried_reservation }
+            AmountCase { pre_auth, final_amount, currency, password, token, receipt, status, cancel, intermediates, retried_reservation, prior_card, prior_txn }
         })
 }
 
@@ -210,6 +278,15 @@ pub fn run(tier: Tier) -> i32 {
             if c.retried_reservation {
                 st.class("reservation-retried-after-lost-connection");
             }
+            if let Some(p) = &c.prior_card {
+                st.class("earlier-read-card");
+                if p.limit.map(|l| l < c.pre_auth).unwrap_or(false) {
+                    st.class("earlier-read-card:card-limit-below-configured-amount");
+                }
+            }
+            if c.prior_txn.is_some() {
+                st.class("earlier-complete-transaction");
+            }
             if st.samples.len() < 1 && partial && !c.cancel {
                 st.sample(|| serde_json::to_value(c).unwrap());
             }
@@ -220,7 +297,7 @@ pub fn run(tier: Tier) -> i32 {
     stats.sample(|| json!({"note": "release = max(P - a, 0) computed in u128; Reservation = {amount P, currency, payment type 0x40, BMP60 (AC, token)} and nothing else"}));
     ctx.finish(
         stats,
-        "proptest: pre-authorisation amounts over 0..10^12-1 (0, 1, 10^k-1/10^k/10^k+1, u32 boundaries, maximum, uniform) x final amounts over u64 (0, P-1, P, P+1, u32::MAX +-1, u64::MAX, random) x currencies {978, 826, 752, 0, 9999} x passwords x CP437 tokens of 0..60 characters x receipts 1..9999 x 1..3 status-information packets with each of amount/trace/date/time/terminal-id present or absent over their full BCD width. The real client runs begin + commit (or cancel) against the simulated terminal; requests are decoded by the reference codec and compared with exact expected values; the terminal's ledger and the returned summary are compared with min(a,P) resp. the last status information. non-trivial = a real partial release or a > P (final amount not in {0, P}); distinct by (P, a, currency, token, op)",
+        "proptest: pre-authorisation amounts over 0..10^12-1 (0, 1, 10^k-1/10^k/10^k+1, u32 boundaries, maximum, uniform) x final amounts over u64 (0, P-1, P, P+1, u32::MAX +-1, u64::MAX, random) x currencies {978, 826, 752, 0, 9999} x passwords x CP437 tokens of 0..60 characters x receipts 1..9999 x 1..3 status-information packets with each of amount/trace/date/time/terminal-id present or absent over their full BCD width. The real client runs begin + commit (or cancel) against the simulated terminal, in a quarter of the cases after an earlier read_card on the same client (status information with the optional maximum-pre-authorisation field 1f0b absent / 0 / below / equal / above the configured amount, with or without a payment application) and in an eighth after an earlier complete begin + commit; requests are decoded by the reference codec and compared with exact expected values; the terminal's ledger and the returned summary are compared with min(a,P) resp. the last status information. non-trivial = a real partial release or a > P (final amount not in {0, P}); distinct by (P, a, currency, token, op)",
         &["P >= 10^12 does not fit the 12-digit amount field and is outside the property", "requests are decoded by the reference codec, never by the repo's"],
         false,
     )
